@@ -415,9 +415,9 @@ def twin_exec(op, a2b):
         elif t[1] == "symlink":
             os.symlink(wp.unhexs(t[2]), f(t[3]))
         elif t[1] == "readlink":
-            r = os.readlink(f(t[2]))
             if int(t[3]) == 0:
-                return "EINVAL", None         # readlink(2): bufsiz is not positive
+                return "EINVAL", None         # readlink(2) on Linux: bufsiz <= 0 is rejected before the lookup
+            r = os.readlink(f(t[2]))
             return None, r[:int(t[3])]
         elif t[1] == "stat":
             st = os.stat(f(t[2]))
@@ -646,9 +646,23 @@ def replay(path):
             open(os.path.join(root, "full", "x"), "w").close()
             h.ask("reset")
             fd = h.ask("preopen " + wp.hexs(root.encode())).split()[1]
-            out = h.ask(f"rmdir {fd} {wp.hexs(b'full')} 4")
-            print(f"replay: path_remove_directory on a non-empty directory returns {out} (WASI NOTEMPTY = 55, INVAL = 28)")
-            rc = 0 if out == "55" else 1
+            if r.get("host_errno") == "ENAMETOOLONG":
+                out = h.ask(f"mkdir {fd} {wp.hexs(b'x' * 300)} 300")
+                print(f"replay: path_create_directory with a 300-byte name component returns {out} (WASI NAMETOOLONG = 37, INVAL = 28)")
+                rc = 0 if out == "37" else 1
+            else:
+                out = h.ask(f"rmdir {fd} {wp.hexs(b'full')} 4")
+                print(f"replay: path_remove_directory on a non-empty directory returns {out} (WASI NOTEMPTY = 55, INVAL = 28)")
+                rc = 0 if out == "55" else 1
+        elif kind == "pathop-nul":
+            root = os.path.join(d, "A", "root")
+            os.makedirs(root)
+            h.ask("reset")
+            fd = h.ask("preopen " + wp.hexs(root.encode())).split()[1]
+            out = h.ask(f"mkdir {fd} {wp.hexs(b'a' + bytes([0]) + b'b')} 3")
+            made = os.path.isdir(os.path.join(root, "a"))
+            print(f"replay: path_create_directory(\"a\\0b\") returns {out}; directory \"a\" created: {made} (the call must not act on a path cut at the NUL)")
+            rc = 1 if (out == "0" and made) else 0
         else:
             print("replay: nothing to run for this record (proof/tie breakage): " + json.dumps(r.get("broken", ""))[:600])
             rc = 1
